@@ -34,9 +34,19 @@ def cmd_run(argv):
     max_bad = int(os.environ.get("VERIF_MAX_BAD_PER_BLOCK", "12"))
     for r in range(start, start + count):
         rng = core.run_rng(seed, key, r)
+        case = None
         try:
             case = mod.generate(rng, tier)
             out = safe_execute(mod, case)
+        except (KeyError, IndexError, TypeError, ValueError, AttributeError, ZeroDivisionError, OverflowError) as e:
+            if case is None:
+                raise
+            # The judges crashed on what the solver handed back (wrong shape / wrong type).  On the unchanged tree this does not
+            # happen in millions of soak runs, so it is the result that is malformed: a violation, not a harness failure.
+            tb = traceback.format_exc()
+            out = core.Outcome()
+            out.violate(prop, "malformed_result", f"the oracle could not even read the result: {type(e).__name__}: {e} | {tb[-400:]}",
+                        target="result_shape")
         except BaseException as e:  # harness error, not a violation
             emit({"r": r, "harness_error": f"{type(e).__name__}: {e}", "tb": traceback.format_exc()[-3000:]})
             sys.stdout.flush()
@@ -65,7 +75,11 @@ def cmd_exec(argv):
     items = data if isinstance(data, list) else [data]
     for it in items:
         try:
-            out = safe_execute(mod, it["case"])
+            try:
+                out = safe_execute(mod, it["case"])
+            except (KeyError, IndexError, TypeError, ValueError, AttributeError, ZeroDivisionError, OverflowError) as e:
+                out = core.Outcome()
+                out.violate(prop, "malformed_result", f"the oracle could not even read the result: {type(e).__name__}: {e}", target="result_shape")
             rec = out.to_json()
         except BaseException as e:
             rec = {"harness_error": f"{type(e).__name__}: {e}", "tb": traceback.format_exc()[-3000:]}
